@@ -191,7 +191,7 @@ func (seg *Segment) Valid(pattern string) bool {
 	case Regexp:
 		pattern += seg.Suffix
 		locs := seg.expr.FindStringIndex(pattern)
-		return locs != nil && locs[1] == len(pattern)
+		return locs != nil && locs[0] == 0 && locs[1] == len(pattern)
 	}
 	return true
 }
